@@ -26,6 +26,8 @@ type C11Case struct {
 	Spec    world.Spec  `json:"spec"`
 	Host    string      `json:"host"`
 	Headers [][2]string `json:"headers,omitempty"`
+	// Rotate: after a first round of requests the storage rolls the response-signing key over and everything is checked again.
+	Rotate bool `json:"rotate_key,omitempty"`
 }
 
 var c11Paths = map[string][]string{
@@ -39,7 +41,7 @@ var c11Paths = map[string][]string{
 
 func genC11Case(t *rapid.T) C11Case {
 	idp := genIdPConfig(t, worldOpts{issuerModes: []string{"static", "static", "host", "forwarded"}, signingFlags: false})
-	idp.WantAuthRequestsSigned = rapid.SampledFrom([]string{"", "", "false", "0", "true", "1"}).Draw(t, "want")
+	idp.WantAuthRequestsSigned = rapid.SampledFrom([]string{"", "", "false", "0", "true", "1", "true", "1", "True", "TRUE", "T", "t", "False", "yes", "on", " true", "01"}).Draw(t, "want")
 	idp.Endpoints = map[string]world.EndpointSpec{}
 	names := []string{"metadata", "certificate", "callback", "sso", "slo", "attribute"}
 	for _, name := range names {
@@ -72,6 +74,7 @@ func genC11Case(t *rapid.T) C11Case {
 	spec.SPs[1].AuthnRequestsSigned = A
 	spec.Requests = []world.RequestSpec{{ID: "c11-done", AppID: "app-0", RelayState: "rs", ACS: "https://sp0.example/acs/post", Binding: world.BindPost, AuthRequestID: "_c11", UserID: "uid-0", Done: true}}
 	c := C11Case{Spec: spec, Host: rapid.SampledFrom(append(reqHosts, "UPPER.Example", "idp.example.", "localhost:8080")).Draw(t, "host")}
+	c.Rotate = rapid.IntRange(0, 2).Draw(t, "rotate") == 0
 	if idp.IssuerMode == "forwarded" && rapid.Bool().Draw(t, "fwd") {
 		c.Headers = [][2]string{{"Forwarded", "for=192.0.2.9;host=" + rapid.SampledFrom([]string{"public.idp.example", "\"proxy.example:444\""}).Draw(t, "fwdhost")}}
 	}
@@ -79,9 +82,22 @@ func genC11Case(t *rapid.T) C11Case {
 }
 
 func c11Run(c C11Case) (vs []*ev.Violation, summary map[string]any) {
-	add := func(key, f string, a ...any) { vs = append(vs, ev.V("C11/"+key, f, a...)) }
-	summary = map[string]any{}
 	w := mustBuild(c.Spec)
+	vs, summary = c11Round(c, w, "")
+	if c.Rotate && len(vs) == 0 {
+		w.Store.RotateResponseKey("sp-2048")
+		w.Store.ResetLog()
+		w.Store.PutRequest(c.Spec.Requests[0])
+		vs2, s2 := c11Round(c, w, "after key roll-over: ")
+		vs = append(vs, vs2...)
+		summary["after_rotation"] = s2
+	}
+	return
+}
+
+func c11Round(c C11Case, w *world.World, stage string) (vs []*ev.Violation, summary map[string]any) {
+	add := func(key, f string, a ...any) { vs = append(vs, ev.V("C11/"+key, stage+f, a...)) }
+	summary = map[string]any{}
 	cfg := c.Spec.IdP
 	do := func(r obs.HTTPReq) obs.Reply {
 		r.Host = c.Host
